@@ -45,6 +45,9 @@ struct Log {
     z_dropped: u64,
     /// RefLock write guards the client leaked in this run (Op::LeakGuard)
     leaked_guards: u32,
+    /// traces of arena roots (FaultPoint sites >= ROOT_SITE): one per marking phase begun, plus one
+    /// per re-trace after a root mutation
+    root_ticks: u64,
 }
 
 static mut LOG: Option<Log> = None;
@@ -53,7 +56,7 @@ fn log() -> &'static mut Log {
     unsafe {
         if LOG.is_none() {
             let _p = seam::pause();
-            LOG = Some(Log { counts: vec![], events: vec![], ticks: 0, armed: vec![], fired: 0, trace_sites: vec![], record_sites: false, protected: vec![], drop_fault_in: None, drop_faulted: vec![], garbage: vec![], z_made: 0, z_dropped: 0, leaked_guards: 0 });
+            LOG = Some(Log { counts: vec![], events: vec![], ticks: 0, armed: vec![], fired: 0, trace_sites: vec![], record_sites: false, protected: vec![], drop_fault_in: None, drop_faulted: vec![], garbage: vec![], z_made: 0, z_dropped: 0, leaked_guards: 0, root_ticks: 0 });
         }
         LOG.as_mut().unwrap()
     }
@@ -76,6 +79,10 @@ pub fn begin_run() {
     l.z_made = 0;
     l.z_dropped = 0;
     l.leaked_guards = 0;
+    l.root_ticks = 0;
+}
+pub fn root_ticks() -> u64 {
+    log().root_ticks
 }
 
 /// The client leaked the write guard of a RefLock: from now on a trace of that lock panics with a
@@ -237,6 +244,9 @@ unsafe impl<'gc> Collect<'gc> for FaultPoint {
 pub fn trace_tick(site: u32) {
     let l = log();
     l.ticks += 1;
+    if site >= ROOT_SITE {
+        l.root_ticks += 1;
+    }
     let t = l.ticks;
     if l.record_sites {
         let _p = seam::pause();
